@@ -195,7 +195,9 @@ def execute(spec, ops):
                 # an exception inside the with-block leaves the block: nothing else runs but its exit
                 aborted = True
                 live = disp._live if cls == "status" else disp
-                queue = [dict(k="exit", bodyexc=True)] if getattr(live, "_started", False) else []
+                # a fault injected into the renders of this one call only: the renderable works again when the block is left
+                healed = dict(broken=False) if queue and queue[0].get("broken") is False else {}
+                queue = [dict(k="exit", bodyexc=True, **healed)] if getattr(live, "_started", False) else []
     finally:
         sys.stdout, sys.stderr = real_out, real_err
     return dict(mode=spec["mode"], transient=spec["transient"], overflow=spec["overflow"], H=spec["H"], W=Wd, cls=cls, events=events,
@@ -227,6 +229,9 @@ def random_history(rng, spec, n, faults):
     started, ever = False, False
     tasks = []
     broke_at = rng.randrange(n) if faults and rng.random() < 0.5 else -1
+    # "an exception injected at every render call index": half of the faults hit the renders of ONE call only - the renderable
+    # works again from the next call on (the display goes on being used with whatever the failed call left behind)
+    heals_at = broke_at + 1 if broke_at >= 0 and rng.random() < 0.5 else -1
     body_at = rng.randrange(1, n + 1) if faults and rng.random() < 0.5 else -1
     for j in range(n):
         if j == body_at and started:
@@ -250,6 +255,8 @@ def random_history(rng, spec, n, faults):
         op = dict(k=k)
         if j == broke_at:
             op["broken"] = True
+        elif j == heals_at:
+            op["broken"] = False
         if k == "start":
             started, ever = True, True
         elif k == "stop":
